@@ -197,6 +197,17 @@ def sc_arith(op, a, b):
     raise OutOfFragment("scalar operator %s" % op)
 
 
+DEFAULT_ATOM = ("T()",)
+
+
+def default_scalar():
+    """T{} / T(): value-initialisation of the scalar type.  Zero for built-in arithmetic types, but for a
+    user-defined scalar it is whatever its default constructor produces; the documented requirements on T do not
+    say it is zero, so code must not depend on it: an opaque input of its own."""
+    return Sc(None, frozenset([DEFAULT_ATOM]), lin={DEFAULT_ATOM: Fraction(1)}, pure=True,
+              mono=frozenset([(DEFAULT_ATOM,)]))
+
+
 class Vec:
     def __init__(self, items=None):
         self.items = list(items or [])
@@ -878,9 +889,9 @@ class Interp:
         et = vec_qn[len("std::vector<"):]
         if et.startswith("std::array<"):
             k = int(et.split(">")[0].rsplit(",", 1)[1].strip().rstrip("UL"))
-            return Arr([Sc(0)] * k)
+            return Arr([default_scalar() for _ in range(k)])
         if self.is_scalar_type(et.split(",")[0].rstrip(">")):
-            return Sc(0)
+            return default_scalar()
         if int_type(et.split(",")[0].rstrip(">")):
             return 0
         raise OutOfFragment("value-initialised element of %s" % vec_qn)
@@ -981,7 +992,7 @@ class Interp:
             return items[0]
         if not items:
             if self.is_scalar_type(t):
-                return Sc(0)
+                return default_scalar()
             if int_type(t):
                 return 0
             return self.default_value(t)
@@ -992,20 +1003,20 @@ class Interp:
         if int_type(t):
             return 0
         if self.is_scalar_type(t):
-            return Sc(0)
+            return default_scalar()
         import re as _re
         m = _re.match(r"(.+)\[(\d+)\]$", t)
         if m:
             et, n = m.group(1).strip(), int(m.group(2))
             if self.is_scalar_type(et):
-                return Arr([Sc(0)] * n)
+                return Arr([default_scalar() for _ in range(n)])
             if int_type(et):
                 return Arr([0] * n)
         if t.startswith("std::array<"):
             n = int(t.rstrip(">").rsplit(",", 1)[1].strip().rstrip("UL"))
             et = t[len("std::array<"):].rsplit(",", 1)[0].strip()
             if self.is_scalar_type(et):
-                return Arr([Sc(0)] * n)
+                return Arr([default_scalar() for _ in range(n)])
         raise OutOfFragment("value-init of %s" % t)
 
     def ev_CXXScalarValueInitExpr(self, e):
@@ -1073,6 +1084,11 @@ class Interp:
             raise OutOfFragment("int->float conversion to %s" % self.T(e))
         if ck == "NullToPointer":
             return NULLPTR
+        if ck == "BitCast":
+            v = self.rv(c)
+            if isinstance(v, Pointer) or v is NULLPTR:
+                return v   # pointer converted to const void* for an address comparison
+            raise OutOfFragment("bit cast of %r" % (v,))
         if ck == "PointerToBoolean":
             v = self.rv(c)
             return 0 if (v is NULLPTR or (isinstance(v, SharedPtr) and v.target is None)) else 1
@@ -1338,8 +1354,9 @@ class Interp:
                 if fill is None:
                     if et.startswith("std::array<"):
                         n = int(et.split(">")[0].rsplit(",", 1)[1].strip().rstrip("UL"))
-                        return Vec([Arr([Sc(0)] * n) for _ in range(v)])
-                    return Vec([Sc(0) if self.is_scalar_type(et.split(",")[0].rstrip(">")) else 0 for _ in range(v)])
+                        return Vec([Arr([default_scalar() for _ in range(n)]) for _ in range(v)])
+                    return Vec([default_scalar() if self.is_scalar_type(et.split(",")[0].rstrip(">")) else 0
+                                for _ in range(v)])
                 return Vec([copy_value(fill) for _ in range(v)])
             raise OutOfFragment("vector constructor from %r" % (vals,))
         if rq.startswith("std::shared_ptr<"):
